@@ -63,9 +63,12 @@ func genC15(rng *rand.Rand, n int, emit func(Case), dist map[string]int) {
 		var streamErr error
 		setCL := false
 		var bodySeen []byte
+		var bodyErr error
+		handlerRan := false
 		e.Any("/", func(c echo.Context) error {
+			handlerRan = true
 			if c.Request().Body != nil {
-				bodySeen, _ = io.ReadAll(c.Request().Body)
+				bodySeen, bodyErr = io.ReadAll(c.Request().Body)
 			}
 			if setCL {
 				c.Response().Header().Set(echo.HeaderContentLength, "12345")
@@ -92,7 +95,7 @@ func genC15(rng *rand.Rand, n int, emit func(Case), dist map[string]int) {
 				// ---------------- Decompress
 				data := make([]byte, rng.Intn(60))
 				rng.Read(data)
-				enc := []string{"gzip", "", "identity", "br", "GZIP"}[rng.Intn(5)]
+				enc := []string{"gzip", "gzip", "gzip", "", "identity", "br", "GZIP"}[rng.Intn(7)]
 				var body bytes.Buffer
 				if enc == "gzip" && rng.Intn(6) == 0 {
 					data = nil // nothing at all behind "Content-Encoding: gzip": an empty body, not an error
@@ -100,6 +103,27 @@ func genC15(rng *rand.Rand, n int, emit func(Case), dist map[string]int) {
 					zw := gzip.NewWriter(&body)
 					zw.Write(data)
 					zw.Close()
+					if rng.Intn(3) == 0 {
+						// not a complete gzip stream behind the label: cut short (also inside the 10-byte header), a few raw
+						// bytes, damaged, or followed by garbage - the handler must not be handed a body it can read to the end
+						full := append([]byte(nil), body.Bytes()...)
+						body.Reset()
+						switch rng.Intn(5) {
+						case 0:
+							body.Write(full[:1+rng.Intn(9)])
+						case 1:
+							body.Write(full[:10+rng.Intn(len(full)-10)])
+						case 2:
+							body.Write([]byte("{\"a\":1}  plain text, not gzip")[:1+rng.Intn(30)])
+						case 3:
+							full[len(full)-1-rng.Intn(8)] ^= 0x55 // checksum or length trailer
+							body.Write(full)
+						default:
+							body.Write(full)
+							body.Write([]byte("trailing garbage")[:1+rng.Intn(16)])
+						}
+						dist["decompress_malformed_gzip"]++
+					}
 				} else {
 					body.Write(data)
 				}
@@ -112,20 +136,38 @@ func genC15(rng *rand.Rand, n int, emit func(Case), dist map[string]int) {
 				if enc != "" {
 					req.Header.Set(echo.HeaderContentEncoding, enc)
 				}
-				prog, rets, bodySeen = nil, nil, nil
+				prog, rets, bodySeen, bodyErr, handlerRan = nil, nil, nil, nil, false
 				rec := httptest.NewRecorder()
 				e.ServeHTTP(rec, req)
 				ok, why := true, ""
 				want := sent
+				gunzipOK := true
 				if enc == "gzip" {
-					want = data
+					// the oracle: compress/gzip's reader over exactly the bytes that were sent
+					want = nil
+					if len(sent) > 0 {
+						zr, err := gzip.NewReader(bytes.NewReader(sent))
+						if err == nil {
+							want, err = io.ReadAll(zr)
+						}
+						if err != nil {
+							gunzipOK, want = false, nil
+						}
+					}
 				}
-				if !bytes.Equal(bodySeen, want) {
-					ok, why = false, fmt.Sprintf("Decompress: Content-Encoding %q, handler read %d bytes %x, expected %x", enc, len(bodySeen), bodySeen, want)
+				delivered := handlerRan && bodyErr == nil
+				switch {
+				case gunzipOK && (!delivered || !bytes.Equal(bodySeen, want)):
+					ok, why = false, fmt.Sprintf("Decompress: Content-Encoding %q, handler ran=%v read %d bytes %x (error %v), expected %x", enc, handlerRan, len(bodySeen), bodySeen, bodyErr, want)
+				case !gunzipOK && delivered:
+					ok, why = false, fmt.Sprintf("Decompress: the %d bytes sent as gzip are not a gzip stream, yet the handler read a body of %d bytes %x to its end without an error", len(sent), len(bodySeen), bodySeen)
 				}
 				labelled := enc == "gzip"
-				in := L(I(-1), B(labelled), S(string(sent)), B(true), S(string(data)))
-				out := L(I(9), I(1), S(string(bodySeen)))
+				in := L(I(-1), B(labelled), S(string(sent)), B(gunzipOK), S(string(want)))
+				out := L(I(9), I(0), S(""))
+				if delivered {
+					out = L(I(9), I(1), S(string(bodySeen)))
+				}
 				emit(Case{In: in, Out: out, Ok: ok, Why: why, Key: "dec|" + enc + "|" + string(sent), Human: fmt.Sprintf("Decompress Content-Encoding=%q body %d bytes -> handler read %d bytes", enc, len(sent), len(bodySeen))})
 				dist["decompress_requests"]++
 				continue
